@@ -195,4 +195,6 @@ def run(ctx, chk):
     chk.floor("C06.R1", counts.get("C06.R1", 0), 4000, "canonical relative keys examined")
     chk.floor("C06.R2", counts.get("C06.R2", 0), 2000, "counted patterns examined")
     chk.floor("C06.R3", counts.get("C06.R3", 0) + counts.get("C06.R4", 0), 3000, "fixed phrases x NORMALIZE modes examined")
+    from .c05 import code_rules
+    code_rules(ctx, chk, rule="C06.R5")
     chk.assume("the simplification-erasure rule (C05 S-A) is not applied to relative phrases: a simplification may rewrite a fixed phrase into an equivalent counted form")
